@@ -251,3 +251,12 @@ package checkers
 //@   pure
 //@   requires gr != nil
 //@   ensures @only-own-group result <==> gr.Name == g.Name
+
+// ---- C07 / C09: the comment-formatting fix covers exactly the comment and inserts one space after //
+//@ func (*commentFormattingChecker).warn
+//@   prop C07 C09
+//@   nosafety
+//@   requires c != nil && comment != nil
+//@   call WarnFixable requires @fix-range-is-the-comment payload(arg1) == comment && arg2.From == commentPos(comment) && arg2.To == commentEnd(comment) && arg2.From <= arg2.To
+//@   call WarnFixable requires @replacement-inserts-one-space hasPrefix(comment.Text, "//") ==> asString(arg2.Replacement) == "// " ++ substr(comment.Text, 2, len(comment.Text))
+//@   call WarnFixable requires @replacement-is-a-comment-that-no-longer-warns hasPrefix(comment.Text, "//") ==> (hasPrefix(asString(arg2.Replacement), "// ") && len(asString(arg2.Replacement)) == len(comment.Text) + 1)
